@@ -150,6 +150,11 @@ pub fn stats() -> BTreeMap<String, u64> {
     with(|e| e.stats.clone())
 }
 
+/// Id of the task being polled (0 outside a task).
+pub fn current_task() -> u64 {
+    with(|e| e.current.unwrap_or(0))
+}
+
 /// Label (e.g. node id) inherited by tasks spawned from the current task.
 pub fn current_label() -> u64 {
     LABEL.with(|l| *l.borrow())
